@@ -6,7 +6,10 @@ use crate::{
         Registry,
     },
 };
-use core::slice;
+use core::{
+    mem::size_of,
+    slice,
+};
 
 pub trait Sealed<C, I> {
     /// Defines the index of the heterogeneous list where the component is located.
@@ -32,6 +35,16 @@ pub trait Sealed<C, I> {
         identifier_iter: archetype::identifier::Iter<R>,
     ) where
         R: Registry;
+
+    /// Returns the offset, in bytes, of the component within a buffer of packed components
+    /// identified by `identifier_iter`, stored in registry order.
+    ///
+    /// # Safety
+    /// When called externally, the `R` over which `identifier_iter` is generic must be the same
+    /// `R` as the registry on which this trait is implemented.
+    unsafe fn offset_in_row<R>(identifier_iter: archetype::identifier::Iter<R>) -> usize
+    where
+        R: Registry;
 }
 
 impl<C, R> Sealed<C, Contained> for (C, R)
@@ -56,6 +69,13 @@ where
             *slice::from_raw_parts_mut(components.get_unchecked(0).0.cast::<C>(), length)
                 .get_unchecked_mut(index) = component;
         }
+    }
+
+    unsafe fn offset_in_row<R_>(_identifier_iter: archetype::identifier::Iter<R_>) -> usize
+    where
+        R_: Registry,
+    {
+        0
     }
 }
 
@@ -87,6 +107,23 @@ where
         unsafe {
             R::set_component(index, component, components, length, identifier_iter);
         }
+    }
+
+    unsafe fn offset_in_row<R_>(mut identifier_iter: archetype::identifier::Iter<R_>) -> usize
+    where
+        R_: Registry,
+    {
+        let size =
+            // SAFETY: `identifier_iter` is guaranteed to have exactly the same number of bits as
+            // there are components in this registry.
+            if unsafe { identifier_iter.next().unwrap_unchecked() } {
+                size_of::<C>()
+            } else {
+                0
+            };
+        // SAFETY: The safety invariants of this function call are upheld by the safety contract of
+        // this current function.
+        size + unsafe { R::offset_in_row(identifier_iter) }
     }
 }
 
